@@ -551,7 +551,54 @@ def r18_5(ctx: Ctx):
     ctx.floor(rid, 'penalty paths guarded by coordinate/bound tests (positive control: GKLS)', n_pen, 1)
 
 
+def r18_6(ctx: Ctx):
+    """The declared metadata stays what the constructor declared: nothing outside the problem classes writes into
+    the bound vectors, the name vector or the known optimum (its trial, point, coordinates, value holders)."""
+    rid = 'R18.6'
+    ctx.rule(rid, 'who may write problem metadata: only the problem classes themselves (constructors / generators); '
+                  'the solver, the listeners and the painters only read it (copies are taken before in-place work)')
+    pta = ctx.pta
+    roles = C.roles_of(ctx)
+    base = ctx.ix.cls('Problem')
+    probs = [o for o in pta._objs.values() if o.cls is not None and o.kind in ('inst', 'ext_inst')
+             and o.cls.is_subclass_of(base)]
+    fields = ('lowerBoundOfFloatVariables', 'upperBoundOfFloatVariables', 'floatVariableNames', 'knownOptimum',
+              'discreteVariableNames', 'discreteVariableValues')
+    roots = set()
+    for o in probs:
+        for fld in fields:
+            roots |= pta.read_field(o, fld)
+    # concrete objects allocated by the problem classes (placeholders for 'any FunctionValue supplied from outside'
+    # would conflate the metadata with every trial of the search)
+    fvc = ctx.ix.find_cls('FunctionValue')
+    parts = {o for o in pta.reach_objs(roots) if o.kind in ('inst', 'list', 'ndarray', 'dict')
+             and o.site.startswith(('iOpt/problems', 'iOpt/problem.py'))
+             # value holders travel through Problem.Calculate's return value, which the (context-insensitive)
+             # points-to relation merges over all callers: they are left out rather than falsely implicated
+             and not (o.cls is not None and fvc is not None and o.cls.is_subclass_of(fvc))}
+    ctx.floor(rid, 'objects making up problem metadata', len(parts), 8)
+    n = 0
+    for m in roles.mutations():
+        if m.init_self:
+            continue
+        mod = m.func.module.name
+        if mod.startswith('iOpt.problems') or mod == 'iOpt.problem' or mod.startswith('iOpt.trial'):
+            continue
+        n += 1
+        hit = [o for o in m.bases if o in parts]
+        if not hit:
+            continue
+        ctx.fail(rid, m.func.short, m.loc(),
+                 f'{m.text()[:70]} writes into problem metadata ({hit[0].describe()}): after it ran the instance no '
+                 f'longer declares what its constructor declared (bounds / known optimum / names)',
+                 key=f'{rid}::{m.func.module.relpath}::{m.func.short}::writes-metadata')
+    ctx.ok(rid, 'iOpt/*', f'{n} mutation sites outside the problem classes: none targets problem metadata', 'iOpt/')
+    ctx.floor(rid, 'mutation sites outside the problem classes', n, 100)
+
+
 def check(ctx: Ctx):
+    if C.want(ctx, 'R18.6'):
+        r18_6(ctx)
     if C.want(ctx, 'R18.4'):
         r18_4(ctx)
     if C.want(ctx, 'R18.5'):
